@@ -825,7 +825,8 @@ func (h *H) seqCase(m *mgr, script []string) {
 
 
 // corpusExpiry: issue a token that expires at t=10s, authenticate at t=0 (fills the cache), advance the
-// clock to t=60s (cache TTL 1h), authenticate again.
+// clock to t=60s (cache TTL 1h), authenticate again. Before /repo b9131b8 the second call authenticated
+// from the cache (finding expired-token-authenticates:cache-hit); the monitor stays live as a regression guard.
 func (h *H) corpusExpiry(m *mgr, viaCreate bool) {
 	h.serial++
 	h.buf = h.buf[:0]
